@@ -1046,6 +1046,62 @@ func TestC10Regress(t *testing.T) {
 			t.Errorf("%s", msg)
 		}
 	}
+	// A 101 answer: the connection speaks another protocol from here on, whichever way the upgrade option is spelled
+	// in the Connection list. It is never put back; the next request of the host gets a connection of its own.
+	for _, form := range []string{"Upgrade", "upgrade", "keep-alive, Upgrade", "Upgrade, keep-alive"} {
+		var dials int32
+		var sawSecondOnFirst int32
+		dial := func(n int, addr string) (net.Conn, error) {
+			k := atomic.AddInt32(&dials, 1)
+			cc, sc := net.Pipe()
+			go func() {
+				defer sc.Close()
+				buf := make([]byte, 4096)
+				var got []byte
+				for {
+					n, err := sc.Read(buf)
+					got = append(got, buf[:n]...)
+					if _, perr := wire.ReadRequest(got, 0); perr == nil {
+						break
+					}
+					if err != nil {
+						return
+					}
+				}
+				if k == 1 {
+					sc.Write([]byte("HTTP/1.1 101 Switching Protocols\r\nUpgrade: chat\r\nConnection: " + form + "\r\n\r\n")) //nolint:errcheck
+					sc.SetReadDeadline(time.Now().Add(300 * time.Millisecond))                                                //nolint:errcheck
+					if n, _ := sc.Read(buf); n > 0 && strings.HasPrefix(string(buf[:n]), "POST ") {
+						atomic.StoreInt32(&sawSecondOnFirst, 1)
+					}
+					return
+				}
+				sc.Write([]byte("HTTP/1.1 200 OK\r\nContent-Length: 2\r\n\r\nok")) //nolint:errcheck
+				io.Copy(io.Discard, sc)                                            //nolint:errcheck
+			}()
+			return cc, nil
+		}
+		cl := cli.New(http1.ClientOptions{MaxConns: 2, MaxIdleConnDuration: time.Hour, DialTimeout: time.Second}, dial)
+		req, resp := protocol.AcquireRequest(), protocol.AcquireResponse()
+		req.SetRequestURI("http://example.com/chat")
+		req.Header.Set("Connection", "Upgrade")
+		req.Header.Set("Upgrade", "chat")
+		err1 := cl.HC.Do(context.Background(), req, resp)
+		req2, resp2 := protocol.AcquireRequest(), protocol.AcquireResponse()
+		req2.SetRequestURI("http://example.com/b")
+		req2.Header.SetMethod("POST")
+		req2.SetBodyString("x")
+		ctx2, cancel2 := context.WithTimeout(context.Background(), 2*time.Second)
+		err2 := cl.HC.Do(ctx2, req2, resp2)
+		cancel2()
+		time.Sleep(50 * time.Millisecond)
+		rec.Case(true, ev.HashString("upgrade-option", form), "regress-101-upgrade-option")
+		if err1 != nil || atomic.LoadInt32(&sawSecondOnFirst) != 0 || atomic.LoadInt32(&dials) != 2 || err2 != nil {
+			msg := fmt.Sprintf("101 with Connection: %s: first call err=%v; the next request of the host: err=%v, %d connections dialed (want 2), written into the upgraded connection: %v", form, err1, err2, atomic.LoadInt32(&dials), atomic.LoadInt32(&sawSecondOnFirst) != 0)
+			ev.Fail(prop, "regress", map[string]string{"case": "101-upgrade-option", "form": form}, msg)
+			t.Errorf("%s", msg)
+		}
+	}
 	// Saved inputs D30 (every spelling of the close option) and D31 (streamed body cut behind the
 	// pre-read part): one caller, the faulty exchange last on its connection, so that nothing but the
 	// client's own decision closes it.
